@@ -484,6 +484,8 @@ H("conn_discard_space_native", ["C12"], "replay-only", "connection::discard_spac
   [("x", "u8")], 4, [], ["Connection::discard_space", "Connection::remove_in_flight"], "native replay body of E2 query e2_discard_space_iteration")
 H("streams_open_limit_native", ["C05"], "replay-only", "connection::streams::open_limit_native",
   [("limit", "u8")], 4, [], ["Streams::open"], "native replay body of E2 query e2_streams_open_limit")
+H("conn_close_reason_early_native", ["C08"], "replay-only", "connection::close_reason_early_native",
+  [("x", "u8")], 4, [], ["Connection::close", "Connection::poll_transmit", "frame::Close::encode"], "native replay body of E2 slice query e2_poll_transmit_close_reason_slice")
 H("conn_path_response_native", ["C15", "C07"], "replay-only", "connection::path_response_native",
   [("mode", "u8")], 4, [], ["Connection::handle_event", "Connection::process_payload"], "native replay body of E2 slice query e2_path_response_slice")
 H("conn_detect_lost_native", ["C12"], "replay-only", "connection::detect_lost_native",
